@@ -388,6 +388,94 @@ def stream_minishard(R, n):
             R.disagree("next_cmc", {"args": a}, w[0], x2[0])
 
 
+def stream_sessions(R, n):
+    """Accessor-level sessions over two identical scales with repeated close():
+    the compute_dyadic_scales pattern (scale 0, close, scale 1, close), double
+    close, interleaved scales, close before any store — and, as correspondence
+    only, stores into a scale that was already closed (the real code then
+    raises AttributeError and truncates the shard file; the model follows)."""
+    rng = R.rng
+    todo = []
+    for i in range(n):
+        ds = L.gen_dataset(rng, 3000 + i)
+        opsA = L.order_ops(ds, rng, rng.choice(["sorted", "random", "reversed"]))
+        opsB = L.order_ops(ds, rng, "random")
+        if rng.random() < 0.5 and len(opsB) > 1:
+            opsB = opsB[:rng.randrange(1, len(opsB) + 1)]
+        pat = rng.choice(["dyadic", "dyadic", "twice", "double-close", "interleaved", "close-first",
+                          "store-after-close", "store-after-close"])
+        st = lambda k, o: ("s", k, o[0], o[1], o[2], o[3])
+        C = ("c",)
+        if pat == "dyadic":
+            sops = [st(0, o) for o in opsA] + [C] + [st(1, o) for o in opsB] + [C] + ([C] if rng.random() < 0.5 else [])
+        elif pat == "twice":
+            sops = [st(0, o) for o in opsA] + [C] + [st(1, o) for o in opsA] + [C]
+        elif pat == "double-close":
+            sops = [st(0, o) for o in opsA] + [C, C] + ([C] if rng.random() < 0.3 else [])
+        elif pat == "interleaved":
+            mixed = [st(0, o) for o in opsA] + [st(1, o) for o in opsB]
+            rng.shuffle(mixed)
+            sops = mixed + [C]
+        elif pat == "close-first":
+            sops = [C] + [st(1, o) for o in opsB] + [C] + [st(0, o) for o in opsA] + [C]
+        else:
+            cut = rng.randrange(0, len(opsA) + 1)
+            sops = [st(0, o) for o in opsA[:cut]] + [C] + [st(0, o) for o in opsA[cut:]] + [C]
+            if rng.random() < 0.5:
+                sops += [st(1, o) for o in opsB] + [C]
+        todo.append((ds, sops, pat, rng.choice(["in memory", "on disk"]), {0: opsA, 1: opsB}))
+    run_sessions(R, todo)
+
+
+def run_sessions(R, todo):
+    """todo: list of (dataset, session ops, pattern name, strategy, _)."""
+    R.extra["_sess_counter"] = R.extra.get("_sess_counter", 0) + 1
+    tag = R.extra.pop("_sess_counter")
+    R.extra["_sess_base"] = R.extra.get("_sess_base", 0) + len(todo)
+    base = R.extra.pop("_sess_base")
+    impl = [L.impl_session(R, ds, sops, strat, f"sess{base}_{i}") for i, (ds, sops, pat, strat, _) in enumerate(todo)]
+    reps = L.oracle_batch(R, [L.session_request(ds, sops, L.Oracle()) for ds, sops, _, _, _ in todo])
+    # expected files of every scale taken alone (single-scale model, theorems C04/C05)
+    single, smeta = [], []
+    for j, (ds, sops, pat, strat, _) in enumerate(todo):
+        if pat == "store-after-close":
+            continue
+        for k in (0, 1):
+            kops = [(o[2], o[3], o[4], o[5]) for o in sops if o[0] == "s" and o[1] == k]
+            if kops:
+                single.append(L.run_request(ds, kops, L.Oracle()))
+                smeta.append((j, k))
+    sreps = dict(zip(smeta, L.oracle_batch(R, single)))
+    for j, ((ds, sops, pat, strat, _), (outs, files), rep) in enumerate(zip(todo, impl, reps)):
+        case = {k: ds[k] for k in ("grid", "cs", "sizes", "m", "s", "p", "ie", "de")}
+        case.update(stream="sessions", pattern=pat, strategy=strat,
+                    sops=[list(o) for o in sops])
+        R.case(case, nontrivial=len(sops) >= 4)
+        R.count(f"session:{pat}")
+        m_outs, m_files = L.parse_session_reply(rep)
+        for o in outs:
+            R.count("session:outcome:" + "/".join(str(x) for x in o if x != "none"))
+        if outs != m_outs:
+            R.disagree("session: per-operation outcomes", case, outs, m_outs)
+        if files != m_files:
+            R.disagree("session: files of the two scales", case,
+                       {k: sorted(v) for k, v in files.items()}, {k: sorted(v) for k, v in m_files.items()})
+        if pat == "store-after-close":
+            continue
+        if any(o[0] != "ok" for o in outs):
+            R.violation("a store or close() raised in a session that never stores into a closed scale",
+                        case, {"outcomes": [o for o in outs if o[0] != "ok"][:3]})
+        for k in (0, 1):
+            if (j, k) in sreps:
+                _, want = L.parse_run_reply(sreps[(j, k)])
+                want = L.model_files_plain(want)
+                if files.get(k, {}) != want:
+                    R.violation("the files of a scale depend on what happened to the other scale / on repeated close()",
+                                case, {"scale": k, "got": sorted(files.get(k, {})), "expected": sorted(want or {})})
+            elif files.get(k):
+                R.violation("files written for a scale that received no chunk", case, {"scale": k})
+
+
 def stream_voxels(R, n):
     """Decoded voxels through PrecomputedIO on a sharded dataset."""
     import numpy as np
@@ -443,9 +531,9 @@ def stream_voxels(R, n):
 def run(R):
     R.rule = RULE
     quick = R.tier == "quick"
-    for fn, n in ((stream_datasets, 600 if quick else 5000), (stream_duplicates, 250 if quick else 2500),
-                  (stream_damaged, 400 if quick else 4000), (stream_minishard, 1000 if quick else 12000),
-                  (stream_voxels, 60 if quick else 600)):
+    for fn, n in ((stream_datasets, 480 if quick else 5000), (stream_duplicates, 250 if quick else 2500),
+                  (stream_damaged, 400 if quick else 4000), (stream_minishard, 800 if quick else 12000),
+                  (stream_sessions, 150 if quick else 2500), (stream_voxels, 60 if quick else 600)):
         try:
             fn(R, n)
         except (L.ImplHang, L.ImplAbort):
@@ -469,6 +557,16 @@ def _replay_once(R, payload):
     if not case and payload.get("disagreements"):
         case = payload["disagreements"][0].get("case") or {}
     before = (len(R.violations), len(R.disagreements))
+    if case.get("stream") == "sessions" and "sops" in case:
+        def unb(v):
+            return bytes.fromhex(v[1:]) if isinstance(v, str) else bytes(v)
+        ds = {k: case[k] for k in ("grid", "cs", "sizes", "m", "s", "p", "ie", "de")}
+        sops = [("c",) if o[0] == "c" else ("s", o[1], o[2], o[3], o[4], unb(o[5])) for o in case["sops"]]
+        try:
+            run_sessions(R, [(ds, sops, case.get("pattern", "replay"), case.get("strategy"), None)])
+        except (L.ImplAbort, L.ImplHang):
+            return True
+        return (len(R.violations), len(R.disagreements)) != before
     if "grid" in case and "sel" not in case:
         # hang / fetch report without the chunk list: store the whole grid
         g = case["grid"]
